@@ -34,6 +34,9 @@ RULE = ("Cases: (generation mode default(-1)/positive, first round = C14 bounded
         "subscription per member (quick: 1..3 members, 0..3 partitions), each followed by exactly one second round "
         "out of: same; minus every non-empty proper subset of members; plus new members {m9}, {a0}, {a0,m9} "
         "(sorting after/before the old ones) subscribing like m0 or to all topics; each in both generation modes. "
+        "Enumerated deeper chains with identical subscriptions: t0 with 1..9 (thorough 1..12) partitions, optional "
+        "second topic subscribed by all (0..3 partitions) or by nobody (1..2), 1..3 initial members, every sequence "
+        "of 2..3 (thorough 2..4) steps over {same, add member sorting first/last, remove first/last member}. "
         "Random: chains of 1..4 steps after a first round of up to 8 members, 6 topics, 12 partitions. "
         "Non-trivial = some remove/add step whose previous round gave every member at least one partition. "
         "Distinct = distinct case value.")
@@ -48,6 +51,11 @@ ASSUMPTIONS = ["cluster stub with ClusterMetadata's partitions_for_topic()/topic
 
 def _norm(result):
     return {m: sorted(v) for m, v in result.items()}
+
+
+def _unsubscribed_topic(layout, members):
+    subscribed = {t for _, ts in members for t in ts}
+    return any(n and t not in subscribed for t, n in layout.items())
 
 
 def _fail_round(out, e, kind, k, layout, members, params):
@@ -68,7 +76,8 @@ def _first_round(gen, layout, members, memo_key):
         return g, result, fails
     g = ac.Group("sticky", gen)
     tmp = Outcome()
-    params = {"gen": gen, "round_kind": "first"}
+    params = {"gen": gen, "round_kind": "first",
+              "cluster_topic_nobody_subscribes": _unsubscribed_topic(layout, members)}
     result = None
     try:
         result = g.rebalance(layout, members)
@@ -130,8 +139,13 @@ def run_chain(gen, layout, members, steps, memo_key=None):
         nsteps += 1
         ident_prev = ac.all_identical(prev_members)
         ident_both = ac.all_identical(prev_members + members)
-        params = {"gen": gen, "round_kind": kind}
+        # a topic with partitions that nobody subscribes to (e.g. full-cluster metadata of a pattern
+        # subscriber): part of the cluster layout, never part of anyone's subscription
+        unsub = _unsubscribed_topic(layout, members)
+        params = {"gen": gen, "round_kind": kind, "cluster_topic_nobody_subscribes": unsub}
         out.label("round:" + kind)
+        if unsub:
+            out.label("round:cluster_topic_nobody_subscribes")
         if kind in ("remove", "add"):
             if all(len(prev_result[m]) >= 1 for m, _ in prev_members):
                 out.nontrivial = True
@@ -267,16 +281,50 @@ def exec_chain(case):
     return run_chain(case["gen"], case["first"]["topics"], case["first"]["members"], steps)
 
 
+# ---------------------------------------------------------------- enumerated deeper chains, identical subscriptions
+
+_ID_STEPS = (["same"], ["add", [["a", "same"]]], ["add", [["zz", "same"]]], ["remove", [0]], ["remove", [-1]])
+
+
+def _identical_chain_cases(shard, nshards, max_parts, max_len):
+    """All members subscribe to the same topics (the stickiness clauses always apply): topic t0 with
+    1..max_parts partitions; optional second topic either subscribed by everybody (0..3 partitions)
+    or by nobody (1..2 partitions); 1..3 initial members; every step sequence of length 2..max_len
+    over {same, add a member sorting first, add a member sorting last, remove first, remove last}."""
+    import itertools
+    second = [None] + [("sub", k) for k in (0, 1, 2, 3)] + [("unsub", k) for k in (1, 2)]
+    i = 0
+    for n in range(1, max_parts + 1):
+        for sec in second:
+            layout = {"t0": n}
+            sub = ["t0"]
+            if sec is not None:
+                layout["t1"] = sec[1]
+                if sec[0] == "sub":
+                    sub = ["t0", "t1"]
+            for nm in (1, 2, 3):
+                members = [["m%d" % j, list(sub)] for j in range(nm)]
+                for ln in range(2, max_len + 1):
+                    for steps in itertools.product(_ID_STEPS, repeat=ln):
+                        for gen in ac.GEN_MODES:
+                            i += 1
+                            if i % nshards == shard:
+                                yield {"gen": gen, "first": {"topics": layout, "members": members},
+                                       "steps": [list(x) for x in steps]}
+
+
 def campaigns(tier):
     thorough = tier == "thorough"
     if thorough:
-        pairs = Campaign("pairs_m1-4_p0-4", "enum", execute=exec_pair, exhaustive=True,
+        pairs = Campaign("pairs", "enum", execute=exec_pair, exhaustive=True,
                          cases=lambda s, n: _pair_cases(s, n, 4, ac.PART_CHOICES))
     else:
-        pairs = Campaign("pairs_m1-3_p0-3", "enum", execute=exec_pair, exhaustive=True,
+        pairs = Campaign("pairs", "enum", execute=exec_pair, exhaustive=True,
                          cases=lambda s, n: _pair_cases(s, n, 3, (None, 0, 1, 2, 3)))
     return [
         pairs,
+        Campaign("identical_chains", "enum", execute=exec_chain, exhaustive=True,
+                 cases=lambda s, n: _identical_chain_cases(s, n, 12 if thorough else 9, 4 if thorough else 3)),
         Campaign("chains", "hyp", execute=exec_chain, strategy=_strat_chain,
                  examples=60000 if thorough else 6000, shrink_wall=20.0),
     ]
